@@ -281,7 +281,7 @@ def cross_check_reference(ctx):
                     bad.append("%s: Lean Spec has a layout (%s), the Rust reference has none (%s)" % (t, val, r))
             elif r != val:
                 bad.append("%s: Lean Spec %s, Rust reference %s" % (t, val, r))
-            elif flag == "nwf" and "{}" not in t:
+            elif flag == "nwf":
                 bad.append("%s: Rust reference has a layout, xwf is false" % t)
     ctx.extra["reference_cross_check"] = {"types": len(asked), "disagreements": len(bad)}
     for b in bad[:5]:
@@ -302,10 +302,10 @@ SPEC = {
         "tables_pinned", "checked_sites", "get_matches_spec", "check_sound_agree", "check_sound",
         "reported_sizes_true", "rejected_differs", "check_complete", "check_total", "vector_free_agree",
         "agree_iff_same_size_and_offsets", "rejected_really_differs", "check_complete_fields",
-        "collection_sites_covered", "diagnostic_pinned", "property_uses_collected", "check_layout_sound",
-        "check_layout_reports_true_sizes", "buffer_arrays_not_validated",
+        "collection_sites_covered", "diagnostic_pinned", "property_uses_collected_partial", "check_layout_sound_partial",
+        "check_layout_reports_true_sizes", "typedef_buffer_array_not_validated",
         "check_sound_full", "reported_sizes_true_full", "no_layout_no_verdict", "check_complete_partial",
-        "complete_fails_beyond_plain", "empty_struct_unsound",
+        "complete_fails_beyond_plain",
     ]],
     "harness": "c19",
     "nontrivial": nontrivial,
